@@ -40,7 +40,7 @@ PARAM_NAMES = ["a", "ab", "a1", "abc", "b", "alpha", "phi", "theta", "r", "p_one
 VAR_NAMES = ["n", "m", "x", "y", "z", "w", "alpha", "s1", "flag", "U", "A", "B", "M", "vec", "val_2", "c", "d", "big", "lbl", "bb"]
 LOOP_NAMES = ["i", "j", "k", "idx", "mm"]
 STRINGS = ["", "hello", "a b", "fock", "it's", "x#y", "semi;colon", "a, b", "pipe | 0", "[1, 2]", "{a}", "back\\slash", " lead", "trail ",
-           "CamelCase", "1e5", "True", "q0", "p0", "name", "Tab\there" if False else "tab4    here", "éß", "(paren)", "k=v"]
+           "CamelCase", "1e5", "True", "q0", "p0", "name", "tab4    here", "éß", "(paren)", "k=v"]
 
 # --- literal pools (texts) -----------------------------------------------------------------------------------------
 INT_TAME = ["0", "1", "2", "3", "5", "7", "10", "42", "255", "1000", "007"]
@@ -425,6 +425,25 @@ class Script:
             return pick(rng, FLOAT_TAME)
         return "(" + pick(rng, COMPLEX_TAME) + ")"
 
+    def defining_expr(self, kind):
+        """right-hand side of a computed variable: either literal-only (any shape) or `<variable> <op> <literal>`, so that
+        magnitudes cannot snowball through chains of declarations"""
+        rng = self.rng
+        real, intonly = kind != "complex", kind == "int"
+        vs = self.num_vars(("int",) if intonly else ("int", "float") if real else ("int", "float", "complex"))
+        if vs and rng.random() < 0.5:
+            v = pick(rng, vs)
+            lit = pick(rng, INT_TAME[1:6]) if intonly else pick(rng, FLOAT_TAME[:6] + INT_TAME[1:6]) if real or rng.random() < 0.5 else "(" + pick(rng, COMPLEX_TAME) + ")"
+            op = pick(rng, ["+", "-", "*"] if intonly else ["+", "-", "*", "/"])
+            if op == "/" or rng.random() < 0.5:
+                return "%s %s %s" % (v, op, lit if op != "/" else self.pos_lit())
+            return "%s %s %s" % (lit, op, v)
+        saved, self.vars = self.vars, {}
+        try:
+            return self.expr(1 if intonly else 2, real, intonly)
+        finally:
+            self.vars = saved
+
     def pos_lit(self):
         return pick(self.rng, ["0.5", "1.5", "2", "3", "0.25", "1e-3", "2.5", "10", "pi", "7.0"])
 
@@ -457,8 +476,8 @@ class Script:
         fn, arg = pick(rng, [("sin", None), ("cos", None), ("tanh", None), ("arctan", None), ("sinh", "0.5"), ("cosh", "1.5"), ("exp", "0.5"),
                              ("exp", "-2"), ("sqrt", "2"), ("sqrt", "pi"), ("log", "2.5"), ("log", "10"), ("arcsin", "0.5"), ("arccos", "0.25"),
                              ("tan", "0.5"), ("arcsinh", "1.5"), ("arccosh", "2.5"), ("arctanh", "0.5"), ("sqrt", "2 + 2"), ("exp", "pi / 4")])
-        if arg is None:
-            arg = self.atom(real, False, extra)
+        if arg is None:                                            # real atom of any size, or a complex *literal* (sin/cos overflow on large imaginary parts)
+            arg = self.atom(True, False, extra) if real or rng.random() < 0.7 else "(" + pick(rng, COMPLEX_TAME) + ")"
         return "%s(%s)" % (fn, arg)
 
     @staticmethod
@@ -477,13 +496,13 @@ class Script:
         n = self.fresh()
         tame = True
         if kind == "int":
-            t = self.expr(1, True, True) if rng.random() < computed else pick(rng, INT_TAME + INT_BIG[:2])
+            t = self.defining_expr("int") if rng.random() < computed else pick(rng, INT_TAME + INT_BIG[:2])
             tame = t not in INT_BIG
         elif kind == "float":
-            t = self.expr(2, True) if rng.random() < computed else pick(rng, FLOAT_TAME + FLOAT_EXTREME + ["3", "-0.5", "-1e300"])
+            t = self.defining_expr("float") if rng.random() < computed else pick(rng, FLOAT_TAME + FLOAT_EXTREME + ["3", "-0.5", "-1e300"])
             tame = t not in FLOAT_EXTREME and t != "-1e300"
         elif kind == "complex":
-            t = self.expr(2) if rng.random() < computed else pick(rng, COMPLEX_LITS + COMPLEX_SIGNED + ["2", "0.5"])
+            t = self.defining_expr("complex") if rng.random() < computed else pick(rng, COMPLEX_LITS + COMPLEX_SIGNED + ["2", "0.5"])
             tame = "e" not in t or t not in COMPLEX_LITS + COMPLEX_SIGNED
         elif kind == "str":
             t = '"%s"' % pick(rng, STRINGS)
@@ -921,7 +940,7 @@ def gen_template_case(rng, tier="quick"):
         cls = "reordered/" + cls
     # negative cases: one structural edit of the instance
     if rng.random() < 0.35:
-        kinds = ["gate-name", "mode-list", "version", "target"]
+        kinds = ["gate-name", "mode-list", "mode-list", "version", "target"]
         swap_ix = [i for i in range(len(ops) - 1) if set(ops[i]["modes"]) & set(ops[i + 1]["modes"])
                    and (ops[i]["op"], ops[i]["modes"]) != (ops[i + 1]["op"], ops[i + 1]["modes"])]
         if swap_ix:
@@ -931,9 +950,10 @@ def gen_template_case(rng, tier="quick"):
         if kind == "gate-name":
             inp["edit"] = {"kind": kind, "index": rng.randrange(len(ops)), "to": "Other_gate"}
         elif kind == "mode-list":
-            i = rng.randrange(len(ops))
+            multi = [j for j, o in enumerate(ops) if len(o["modes"]) > 1]
+            i = pick(rng, multi) if multi and rng.random() < 0.7 else rng.randrange(len(ops))
             m = list(ops[i]["modes"])
-            how = pick(rng, ["reverse", "fresh", "extra"]) if len(m) > 1 else pick(rng, ["fresh", "extra"])
+            how = pick(rng, ["reverse", "reverse", "fresh", "extra"]) if len(m) > 1 else pick(rng, ["fresh", "extra"])
             if how == "reverse":
                 m = m[::-1]
             elif how == "fresh":
@@ -1132,7 +1152,8 @@ def gen_include_case(rng, tier="quick", for_hashseed=False):
     def nest(nm):
         return 1 + max([nest(o["call"]) for o in by_name[nm]["ops"] if "call" in o] + [0])
     depth = max([nest(o["call"]) for o in ops if "call" in o] + ([nest(loop_call["lib"])] if loop_call else []) + [0])
-    cls = "depth%d/%s/cwd-%s" % (depth, "+".join(sorted(feats)) or "plain", cwd)
+    at_main = cwd == "main-dir" or (cwd == "root" and main_dir == "")
+    cls = "depth%d/%s/%s" % (depth, "+".join(sorted(feats)) or "plain", "cwd-at-main" if at_main else "cwd-elsewhere")
     if not for_hashseed and rng.random() < 0.2:
         # negative: one ill-formed call appended
         kinds = ["wrong-mode-count"]
@@ -1146,14 +1167,10 @@ def gen_include_case(rng, tier="quick", for_hashseed=False):
     return {"class": cls, "input": inp}
 
 
-def _bind_text(a):
-    return affine_text(a)
-
-
 def _op_line(o, indent=""):
     m = str(o["modes"][0]) if len(o["modes"]) == 1 else "[%s]" % ", ".join(map(str, o["modes"]))
     if "call" in o:
-        call = "(%s)" % ", ".join("%s=%s" % (k, _bind_text(v)) for k, v in o["bind"].items()) if o["bind"] else ""
+        call = "(%s)" % ", ".join("%s=%s" % (k, affine_text(v)) for k, v in o["bind"].items()) if o["bind"] else ""
         return "%s%s%s | %s" % (indent, o["call"], call, m)
     if o["args"] is None:
         return "%s%s | %s" % (indent, o["op"], m)
@@ -1259,7 +1276,7 @@ def gen_hashseed_item(rng):
         case = gen_include_case(rng, for_hashseed=True)
         case["input"]["cwd"] = "unrelated"
         case["input"]["load"] = "abs"
-        return {"class": "include/" + case["class"].split("/cwd-")[0], "include": case["input"]}
+        return {"class": "include/" + case["class"].rsplit("/", 1)[0], "include": case["input"]}
     H = ["name %s" % pick(rng, PROG_NAMES), "version 1.0"]
     body = []
     if r < 0.6:
